@@ -32,12 +32,15 @@ class Machine:
         self.heads = heads          # name -> node | 0
         self.freed = set()
         self.fresh = 0
-        self.oom = oom
+        self.oom = oom              # False | True (every allocation fails) | int k (the k-th allocation fails)
+        self.nalloc = 0
         self.steps = 0
 
     # -- values: 0 = NULL/FALSE, ints, node names, data tokens, ('headp', name)
     def alloc(self, data):
-        if self.oom:
+        k = self.nalloc
+        self.nalloc += 1
+        if self.oom is True or (self.oom is not False and self.oom == k):
             return 0
         n = 'new%d' % self.fresh
         self.fresh += 1
@@ -162,6 +165,9 @@ class Machine:
                 if kind == 'call':
                     c = e['e']
                     results.pop(c.get('id'), None)
+                    if c.get('callee') in ('_dbus_real_assert', '_dbus_verbose_real', '_dbus_warn_check_failed'):
+                        results[c['id']] = 0
+                        continue
                     results[c['id']] = self.call(c.get('callee'), [ev(a) for a in c['args']], depth)
                 elif kind == 'assign':
                     x = e['e']
@@ -360,5 +366,46 @@ def check(prog, r):
             r.violation(key, fn.name, LIST, fn.line, bad)
         else:
             r.ok(key, {'cases': cases})
-    # the link-walking macros the callers iterate with
-    return total
+    # _dbus_list_copy: a second list head; every allocation index may fail
+    fn = prog.fn('_dbus_list_copy', LIST)
+    bad = stuck = None
+    cases = 0
+    for datas in DATA_PATTERNS:
+        for oom in [False] + list(range(len(datas))):
+            nodes, heap = build(datas)
+            m = Machine(prog, heap, {'L': nodes[0] if nodes else 0, 'D': 'junk'}, oom=oom)
+            what = '_dbus_list_copy on the list %s%s' % (list(zip(nodes, datas)),
+                                                        '' if oom is False else ' with no memory for link #%d' % (oom + 1))
+            try:
+                ret = m.run(fn, [('headp', 'L'), ('headp', 'D')])
+                src = ring_of(m, m.heads['L'])
+                dst = ring_of(m, m.heads['D']) if m.heads['D'] != 'junk' else None
+            except Fault as e:
+                cases += 1
+                bad = bad or '%s: %s' % (what, e)
+                continue
+            except Stuck as e:
+                stuck = stuck or '%s: %s' % (what, e)
+                continue
+            cases += 1
+            if [(x, m.heap[x]['data']) for x in src] != list(zip(nodes, datas)):
+                bad = bad or '%s changes the source list' % what
+            elif dst is None:
+                bad = bad or '%s leaves the destination head unset' % what
+            elif oom is False:
+                if ret != 1 or [m.heap[x]['data'] for x in dst] != list(datas):
+                    bad = bad or '%s returns %r with the copy %s' % (what, ret, [m.heap[x]['data'] for x in dst])
+            else:
+                live = [x for x in m.heap if x.startswith('new') and x not in m.freed]
+                if ret != 0:
+                    bad = bad or '%s reports success with an incomplete copy %s' % (what, [m.heap[x]['data'] for x in dst])
+                elif dst or live:
+                    bad = bad or '%s fails but leaves %d link(s) allocated / a non-empty destination' % (what, len(live))
+    if cases < 3 or stuck:
+        raise AnalysisBroken('_dbus_list_copy: %d cases interpreted; the interpreter could not follow: %s' % (cases, stuck))
+    key = '_dbus_list_copy:does-what-it-says'
+    if bad:
+        r.violation(key, fn.name, LIST, fn.line, bad)
+    else:
+        r.ok(key, {'cases': cases})
+    return total + cases
